@@ -86,14 +86,12 @@ def transform_to_schematic_element(element: dict) -> elm.Element:
         raise errors.UnknownCircuitElement(element_type) from e
 
 def apply_direction_and_length(element: elm.Element, direction: str = '', length: float = 1, unit: float = 1) -> elm.Element:
-    if direction == 'right':
-        element.right(length*unit)
-    elif direction == 'left':
-        element.left(length*unit)
-    elif direction == 'up':
-        element.up(length*unit)
-    elif direction == 'down':
-        element.down(length*unit)
+    if direction in ('right', 'left', 'up', 'down'):
+        turn = getattr(element, direction)
+        try:
+            turn(length*unit)
+        except TypeError: # one-terminal symbols (ground, node) can be turned but have no length
+            turn()
     return element
 
 def apply_position(element: elm.Element, origin_element: Optional[elm.schemdraw.elements.Element] = None) -> elm.Element:
